@@ -64,6 +64,10 @@ def origins_for(cfg, rng):
         out.append(("equivalent-spelling", o.replace(".", "%2E", 1)))
         if o.rsplit(":", 1)[-1].isdigit():
             out.append(("equivalent-spelling", o.rsplit(":", 1)[0]))
+    # long origins (lengths around powers of two that fit into one read): echoed exactly with the switch on, refused with it off
+    for k in (7, 8, 10, 12, 13):
+        for d in (-1, 0, 1):
+            out.append(("long", "https://" + "o" * ((1 << k) + d) + ".example"))
     if len(cfg["origins"]) >= 2:
         out.append(("joined-list", cfg["origins"][0] + "," + cfg["origins"][1]))
         out.append(("joined-list", ",".join(cfg["origins"])))
